@@ -202,7 +202,7 @@ fn svd_from_vectors<const D: usize>(
         }
     }
 
-    let result = matrix.svd(false, true);
+    let result = matrix.clone().svd(false, true);
     let v_t = result.v_t.unwrap();
 
     let mut basis = [SVector::<f64, D>::zeros(); D];
@@ -211,7 +211,20 @@ fn svd_from_vectors<const D: usize>(
         for j in 0..D {
             basis[i][j] = v_t[(i, j)];
         }
-        scales[i] = result.singular_values[i];
+
+        // The singular value is the norm of the data projected onto its singular vector. It is
+        // computed that way instead of being taken from the decomposition because, when singular
+        // vectors are requested, the decomposition returns values that are off by up to a percent
+        // for rank deficient data (collinear or planar points).
+        let mut sum_sq = 0.0;
+        for row in 0..n {
+            let mut dot = 0.0;
+            for j in 0..D {
+                dot += matrix[(row, j)] * basis[i][j];
+            }
+            sum_sq += dot * dot;
+        }
+        scales[i] = sum_sq.sqrt();
     }
 
     SvdBasis {
